@@ -2,6 +2,7 @@ package rules
 
 import (
 	"fmt"
+	"go/constant"
 	"go/token"
 	"go/types"
 	"os"
@@ -379,6 +380,30 @@ func ruleSuffixSearchResumesAtNextByte(c *Ctx, rule string) {
 							adv = true
 						}
 					}
+				}
+			}
+			// the search gives up only when nothing was found: offset 0 (an occurrence starting at the very next byte) goes on
+			if v, isVal := in.(ssa.Value); isVal && good {
+				for _, ref := range *v.Referrers() {
+					cmp, ok := ref.(*ssa.BinOp)
+					if !ok {
+						continue
+					}
+					at0, okA := cmpWithConst(cmp, v, 0)
+					atM, okB := cmpWithConst(cmp, v, -1)
+					if !okA || !okB {
+						continue
+					}
+					isCond := false
+					for _, r2 := range *cmp.Referrers() {
+						if _, isIf := r2.(*ssa.If); isIf {
+							isCond = true
+						}
+					}
+					if !isCond {
+						continue
+					}
+					c.R.Add(rule, c.fk(f), "re-search/gives-up-only-when-nothing-found", c.pos(cmp), at0 != atM, ifelse(at0 != atM, "offset 0 and not-found (-1) take different branches", "an occurrence found at offset 0 — starting on the byte right after the rejected one, \"--\" in \"---\" — takes the same branch as not-found: the overlapping occurrence the re-search exists for is never tried"))
 				}
 			}
 			if good {
@@ -1183,5 +1208,852 @@ func ruleRegexpSplitOnRuneBoundary(c *Ctx, rule string) {
 			}
 		})
 	}
+	ruleSplitPointIsABoundary(c, rule, sim)
 	c.R.Add(rule, c.fk(sim), "split-point/character-boundary-for-regexp-segments", c.P.Pos(sim.Pos()), uses, ifelse(uses, "the split position is checked against character boundaries (unicode/utf8)", "the split position is the byte-wise common prefix and nothing looks at character boundaries: two regexp routes whose literal text differs inside a multi-byte character are split in the middle of it, the suffix no longer compiles (\"invalid UTF-8\"), the registration fails and the route registered first is lost"))
+}
+
+// cmpWithConst evaluates an integer comparison between v and a constant with v set to val.
+func cmpWithConst(cmp *ssa.BinOp, v ssa.Value, val int64) (bool, bool) {
+	var k *ssa.Const
+	left := false
+	if cmp.X == v {
+		k, _ = cmp.Y.(*ssa.Const)
+		left = true
+	} else if cmp.Y == v {
+		k, _ = cmp.X.(*ssa.Const)
+	}
+	if k == nil || k.Value == nil {
+		return false, false
+	}
+	if k.Value.Kind() != constant.Int {
+		return false, false
+	}
+	kv := k.Int64()
+	a, b := val, kv
+	if !left {
+		a, b = kv, val
+	}
+	switch cmp.Op {
+	case token.LSS:
+		return a < b, true
+	case token.LEQ:
+		return a <= b, true
+	case token.GTR:
+		return a > b, true
+	case token.GEQ:
+		return a >= b, true
+	case token.EQL:
+		return a == b, true
+	case token.NEQ:
+		return a != b, true
+	}
+	return false, false
+}
+
+// supportedMethodNames: the method names of the tree package's method table (the string constants its package
+// initialiser puts into an array literal); the net/http list when the table is not a literal any more.
+func supportedMethodNames(c *Ctx) []string {
+	var out []string
+	seen := map[string]bool{}
+	if pkg := c.A.TreeAdd.Pkg; pkg != nil {
+		if init := pkg.Func("init"); init != nil {
+			an.AllInstrs(init, func(in ssa.Instruction) {
+				st, ok := in.(*ssa.Store)
+				if !ok {
+					return
+				}
+				if _, isIdx := st.Addr.(*ssa.IndexAddr); !isIdx {
+					return
+				}
+				s, isC := strConst(st.Val)
+				if !isC || s == "" || strings.ToUpper(s) != s || strings.ContainsAny(s, " ,/*") || seen[s] {
+					return
+				}
+				seen[s] = true
+				out = append(out, s)
+			})
+		}
+	}
+	if len(out) < 3 {
+		out = []string{"GET", "POST", "DELETE", "PUT", "PATCH", "CONNECT", "TRACE", "HEAD", "OPTIONS"}
+	}
+	sort.Strings(out)
+	return out
+}
+
+// ruleOnlyAutomaticKeysAreKeptOnRemove — C04.R16 / C18.R11 / C08.R9: Remove(pattern, methods...) takes out what was
+// registered. The only names it passes over are the entries the library generates itself (HEAD, OPTIONS, the 405
+// key — C04.R12 is that direction); every other method of the table, named in the list, reaches the deletion of its
+// entry. TRACE is such a method on a router without a TRACE handler (C18.R3: it is then registered by hand like any
+// other) — a Remove that skips it leaves a route that cannot be taken out by name and stays in every Allow header.
+func ruleOnlyAutomaticKeysAreKeptOnRemove(c *Ctx, rule string) {
+	a := c.A
+	c.R.Rule(c.R.Property+"."+rule, 1, "every method of the table except the automatic entries, named in Remove's list, reaches the deletion of its entry")
+	key405, _ := strconv.Unquote(a.NotAllowedKey)
+	reserved := map[string]bool{"HEAD": true, "OPTIONS": true, key405: true}
+	n := 0
+	for _, f := range builderCluster(c, a.TreeRemove) {
+		f := f
+		// the deletes of f keyed by an element of a list
+		type site struct {
+			in ssa.Instruction
+			k  ssa.Value
+		}
+		var sites []site
+		an.AllInstrs(f, func(in ssa.Instruction) {
+			call, ok := builtinCall(in, "delete")
+			if !ok {
+				return
+			}
+			if _, isH := fieldLoadOf(call.Args[0], a.NodeT, a.FHandlers); !isH {
+				return
+			}
+			if _, isConst := call.Args[1].(*ssa.Const); isConst {
+				return
+			}
+			if _, _, isElem := an.RangeLoopOf(call.Args[1]); !isElem {
+				return
+			}
+			sites = append(sites, site{in, call.Args[1]})
+		})
+		if len(sites) == 0 {
+			continue
+		}
+		for _, m := range supportedMethodNames(c) {
+			if reserved[m] {
+				continue
+			}
+			n++
+			reached := false
+			for _, s := range sites {
+				if _, ok := c.elemReaches(s.k, s.in, assumeEq(m)); ok {
+					reached = true
+				}
+			}
+			c.R.Add(rule, c.fk(f), fmt.Sprintf("named:%q/reaches:delete(handlers,name)", m), c.pos(sites[0].in), reached, ifelse(reached, "the entry of the named method is deleted", fmt.Sprintf("Remove passes over %q like an automatic entry: a handler registered under it by hand (TRACE on a router without a TRACE handler is an ordinary method) cannot be removed by name, keeps answering and stays in Allow, Methods() and Routes()", m)))
+		}
+	}
+	if n == 0 {
+		c.R.Add(rule, c.fk(a.TreeRemove), "named-method/reaches:delete", c.P.Pos(a.TreeRemove.Pos()), true, "Remove deletes no entry under a name taken from its list by a builtin delete (another form of removal: not decided here)")
+	}
+}
+
+// debugIndexSites lists the index and slice expressions outside the serving scope (MUXLINT_DEBUG_SITES).
+func debugIndexSites(c *Ctx) {
+	for _, f := range c.libFuncs() {
+		an.AllInstrs(f, func(in ssa.Instruction) {
+			switch x := in.(type) {
+			case *ssa.Lookup:
+				if _, isMap := x.X.Type().Underlying().(*types.Map); isMap {
+					return
+				}
+				fmt.Fprintf(os.Stderr, "SITE %s %s index %s [%s]\n", c.pos(in), c.fk(f), an.AP(x.X), c.O.Of(x.Index))
+			case *ssa.IndexAddr:
+				fmt.Fprintf(os.Stderr, "SITE %s %s indexaddr %s [%s]\n", c.pos(in), c.fk(f), an.AP(x.X), c.O.Of(x.Index))
+			case *ssa.Index:
+				fmt.Fprintf(os.Stderr, "SITE %s %s index %s [%s]\n", c.pos(in), c.fk(f), an.AP(x.X), c.O.Of(x.Index))
+			case *ssa.Slice:
+				lo, hi := "", ""
+				if x.Low != nil {
+					lo = c.O.Of(x.Low).String()
+				}
+				if x.High != nil {
+					hi = c.O.Of(x.High).String()
+				}
+				fmt.Fprintf(os.Stderr, "SITE %s %s slice %s [%s:%s]\n", c.pos(in), c.fk(f), an.AP(x.X), lo, hi)
+			}
+		})
+	}
+}
+
+// ruleIndexBoundedByItsOwnLength — C05.R17: a belief check in the sense of Engler et al. Where the code compares an
+// index with the length of a collection before using it, it believes that this comparison makes the access safe —
+// so the collection measured and the collection indexed must be the same one (or two whose lengths were compared
+// for equality). `if l >= len(seg.Value) {return}; s1.Value[l]` measures the receiver and indexes the argument:
+// when the argument is the shorter text the access is a runtime fault out of Handle, for patterns CheckSyntax
+// accepts. Sites whose index is never compared with a length are not judged here (counted as out of scope).
+func ruleIndexBoundedByItsOwnLength(c *Ctx, rule string) {
+	c.R.Rule(c.R.Property+"."+rule, 2, "an index that is compared with a length is compared with the length of the collection it indexes")
+	stripK := func(v ssa.Value) ssa.Value {
+		for {
+			bo, ok := v.(*ssa.BinOp)
+			if !ok || (bo.Op != token.ADD && bo.Op != token.SUB) {
+				return v
+			}
+			if _, isK := bo.Y.(*ssa.Const); isK {
+				v = bo.X
+				continue
+			}
+			if _, isK := bo.X.(*ssa.Const); isK && bo.Op == token.ADD {
+				v = bo.Y
+				continue
+			}
+			return v
+		}
+	}
+	lenOf := func(v ssa.Value) (ssa.Value, bool) {
+		call, ok := v.(*ssa.Call)
+		if !ok {
+			return nil, false
+		}
+		if cc, isLen := builtinCall(call, "len"); isLen {
+			return cc.Args[0], true
+		}
+		return nil, false
+	}
+	out, ranged := 0, 0
+	for _, f := range c.libFuncs() {
+		f := f
+		// pairs of collections whose lengths are compared for equality somewhere in f
+		sameLen := map[[2]string]bool{}
+		type cmp struct {
+			b    *ssa.BasicBlock
+			idx  ssa.Value
+			coll ssa.Value
+		}
+		var cmps []cmp
+		an.AllInstrs(f, func(in ssa.Instruction) {
+			bo, ok := in.(*ssa.BinOp)
+			if !ok {
+				return
+			}
+			switch bo.Op {
+			case token.LSS, token.LEQ, token.GTR, token.GEQ, token.EQL, token.NEQ:
+			default:
+				return
+			}
+			lx, isLx := lenOf(bo.X)
+			ly, isLy := lenOf(bo.Y)
+			switch {
+			case isLx && isLy:
+				if bo.Op == token.EQL || bo.Op == token.NEQ {
+					sameLen[[2]string{an.AP(lx), an.AP(ly)}] = true
+					sameLen[[2]string{an.AP(ly), an.AP(lx)}] = true
+				}
+			case isLy:
+				cmps = append(cmps, cmp{bo.Block(), stripK(bo.X), ly})
+			case isLx:
+				cmps = append(cmps, cmp{bo.Block(), stripK(bo.Y), lx})
+			}
+		})
+		if len(cmps) == 0 {
+			continue
+		}
+		an.AllInstrs(f, func(in ssa.Instruction) {
+			var coll, idx ssa.Value
+			switch x := in.(type) {
+			case *ssa.Lookup:
+				if _, isMap := x.X.Type().Underlying().(*types.Map); isMap {
+					return
+				}
+				coll, idx = x.X, x.Index
+			case *ssa.Index:
+				coll, idx = x.X, x.Index
+			case *ssa.IndexAddr:
+				if _, isPtr := x.X.Type().Underlying().(*types.Pointer); isPtr {
+					return
+				}
+				coll, idx = x.X, x.Index
+			default:
+				return
+			}
+			if _, isK := idx.(*ssa.Const); isK {
+				return
+			}
+			base := stripK(idx)
+			if _, isK := base.(*ssa.Const); isK {
+				return
+			}
+			var measured []string
+			own := false
+			for _, cm := range cmps {
+				if cm.idx != base || !cm.b.Dominates(in.Block()) {
+					continue
+				}
+				m := an.AP(cm.coll)
+				if m == an.AP(coll) || cm.coll == coll || sameLen[[2]string{m, an.AP(coll)}] {
+					own = true
+				}
+				// a slice made with the measured length: make([]T, len(measured))
+				if mk, isMk := coll.(*ssa.MakeSlice); isMk {
+					if z, isLen := lenOf(mk.Len); isLen && an.AP(z) == m {
+						own = true
+					}
+				}
+				measured = append(measured, m)
+			}
+			if len(measured) == 0 {
+				out++
+				return
+			}
+			if isRangeIndex(idx) {
+				ranged++
+				return // the index of a range loop: over the collection itself, or over its parallel twin (keys[i] / vals[i])
+			}
+			sort.Strings(measured)
+			measured = dedupStrings(measured)
+			construct := fmt.Sprintf("index:%s[%s]/measured:len(%s)", an.AP(coll), c.O.Of(idx), strings.Join(measured, "),len("))
+			c.R.Add(rule, c.fk(f), construct, c.pos(in), own, ifelse(own, "the index is compared with the length of the collection it indexes", fmt.Sprintf("the index is compared with len(%s) but used on %s: where %s is the shorter one the access is an index-out-of-range fault (a runtime error, not an error value) for input the length test was written to stop", strings.Join(measured, "), len("), an.AP(coll), an.AP(coll))))
+		})
+	}
+	c.R.Add(rule, "pkg:*", "index-sites-without-a-length-comparison", "-", true, fmt.Sprintf("%d index expressions are never compared with a length (search results, constants: C05.R4 and the shape invariants); %d are the index of a range loop (over the collection itself or a parallel one)", out, ranged))
+}
+
+func dedupStrings(in []string) []string {
+	var out []string
+	for i, s := range in {
+		if i == 0 || s != in[i-1] {
+			out = append(out, s)
+		}
+	}
+	return out
+}
+
+// isRangeIndex: the index variable of a range loop over a slice or string as go/ssa builds it (phi(-1, …) + 1).
+func isRangeIndex(v ssa.Value) bool {
+	bo, ok := v.(*ssa.BinOp)
+	if !ok || bo.Op != token.ADD {
+		return false
+	}
+	phi, ok := bo.X.(*ssa.Phi)
+	if !ok || !strings.HasPrefix(phi.Block().Comment, "rangeindex.loop") {
+		return false
+	}
+	k, ok := bo.Y.(*ssa.Const)
+	return ok && k.Value != nil && k.Int64() == 1
+}
+
+// ruleSplitPointIsABoundary: the second half of C17.R11 — consulting unicode/utf8 is not enough, the position handed
+// back has to be one. In the part of Similarity that looks at character boundaries (a byte-wise common prefix is
+// computed and a unicode/utf8 function is reachable behind it), every position v returned that is not a constant
+// is, on every path from the computation to the return, behind an edge that says one of: v <= 0 (no split),
+// v >= len(text) (no split inside this node), utf8.RuneStart(text[v]) (a boundary). One step back by the size of a
+// decoded rune is not such an edge: DecodeLastRuneInString on a prefix that ends inside a character reports
+// (RuneError, 1), which leaves a split inside every character of three or four bytes.
+func ruleSplitPointIsABoundary(c *Ctx, rule string, sim *ssa.Function) {
+	isUTF8 := func(in ssa.Instruction) bool {
+		call := an.CallOf(in)
+		return call != nil && strings.HasPrefix(an.CalleeName(call), "unicode/utf8.")
+	}
+	var starts []*ssa.Call
+	an.AllInstrs(sim, func(in ssa.Instruction) {
+		call, ok := in.(*ssa.Call)
+		if !ok {
+			return
+		}
+		g := an.StaticCallee(&call.Call)
+		if g == nil || !strings.HasPrefix(an.FuncKey(g), "syntax.") || len(call.Call.Args) != 2 {
+			return
+		}
+		if bt, isB := call.Type().Underlying().(*types.Basic); !isB || bt.Kind() != types.Int {
+			return
+		}
+		// a unicode/utf8 call is reachable behind it
+		seen := map[*ssa.BasicBlock]bool{}
+		work := []*ssa.BasicBlock{}
+		found := false
+		past := false
+		for _, x := range call.Block().Instrs {
+			if x == ssa.Instruction(call) {
+				past = true
+				continue
+			}
+			if past && isUTF8(x) {
+				found = true
+			}
+		}
+		work = append(work, call.Block().Succs...)
+		for len(work) > 0 && !found {
+			b := work[len(work)-1]
+			work = work[:len(work)-1]
+			if seen[b] {
+				continue
+			}
+			seen[b] = true
+			for _, x := range b.Instrs {
+				if isUTF8(x) {
+					found = true
+				}
+			}
+			work = append(work, b.Succs...)
+		}
+		if found {
+			starts = append(starts, call)
+		}
+	})
+	for _, c0 := range starts {
+		for _, r := range an.Returns(sim) {
+			if len(r.Results) != 1 {
+				continue
+			}
+			v := r.Results[0]
+			if _, isK := v.(*ssa.Const); isK {
+				continue
+			}
+			establishes := func(b *ssa.BasicBlock, succ int) bool {
+				return edgeHas(b, succ, func(cond ssa.Value, truth bool) bool {
+					bare, neg := stripNot(cond)
+					holds := truth != neg
+					switch x := bare.(type) {
+					case *ssa.Call:
+						if an.CalleeName(&x.Call) != "unicode/utf8.RuneStart" || !holds {
+							return false
+						}
+						switch ix := x.Call.Args[0].(type) {
+						case *ssa.Lookup:
+							return ix.Index == v
+						case *ssa.Index:
+							return ix.Index == v
+						}
+						return false
+					case *ssa.BinOp:
+						// v against a constant: the edge is taken for 0 and not for 1
+						at0, ok0 := cmpWithConst(x, v, 0)
+						at1, ok1 := cmpWithConst(x, v, 1)
+						if ok0 && ok1 {
+							return at0 == holds && at1 != holds
+						}
+						// v against the length of a text: v >= len(text)
+						isLen := func(y ssa.Value) bool {
+							call, ok := y.(*ssa.Call)
+							if !ok {
+								return false
+							}
+							_, is := builtinCall(call, "len")
+							return is
+						}
+						switch {
+						case x.X == v && isLen(x.Y):
+							return (x.Op == token.GEQ && holds) || (x.Op == token.LSS && !holds) || (x.Op == token.EQL && holds) || (x.Op == token.NEQ && !holds)
+						case x.Y == v && isLen(x.X):
+							return (x.Op == token.LEQ && holds) || (x.Op == token.GTR && !holds) || (x.Op == token.EQL && holds) || (x.Op == token.NEQ && !holds)
+						}
+					}
+					return false
+				})
+			}
+			path := (&an.Query{
+				Target:    func(t ssa.Instruction) bool { return t == ssa.Instruction(r) },
+				BlockEdge: establishes,
+			}).Search(an.After(c0))
+			reach := (&an.Query{Target: func(t ssa.Instruction) bool { return t == ssa.Instruction(r) }}).Search(an.After(c0)) != nil
+			if !reach {
+				continue
+			}
+			o := c.R.Add(rule, c.fk(sim), fmt.Sprintf("split-point:return(%s)/is-a-character-boundary", c.O.Of(v)), c.pos(r), path == nil, ifelse(path == nil, "the position returned is no split (<= 0, >= len) or tested with utf8.RuneStart on every path", "a position can be returned that no path tested with utf8.RuneStart: moved back once by the size of a decoded rune it is still inside a character of three or four bytes (a prefix that ends inside a character decodes as RuneError of width 1), the suffix no longer compiles and the route registered first is lost"))
+			if path != nil {
+				o.Path = c.P.PathString(path)
+			}
+		}
+	}
+}
+
+// ruleAutoHandlersBuiltOnce — C09.R5: "the automatic OPTIONS and 405 handlers of a pattern carry [the middlewares]
+// of the call that first registered it", and every factory is invoked once per wrapped handler. The library builds
+// those two entries while registering a method; an installation under one of the two constant keys into the
+// handler map of an existing node is therefore behind the not-found edge of a lookup of that key in that map (or
+// behind "the map is empty / nil": the first registration). Built unconditionally, every later Handle on the
+// pattern replaces them by handlers wrapped with its own middlewares and runs the factories again.
+func ruleAutoHandlersBuiltOnce(c *Ctx, rule string) {
+	a := c.A
+	c.R.Rule(c.R.Property+"."+rule, 2, "the automatic OPTIONS and 405 entries of a node are built by the first registration only")
+	key405, _ := strconv.Unquote(a.NotAllowedKey)
+	n := 0
+	for _, f := range c.libFuncs() {
+		f := f
+		an.AllInstrs(f, func(in ssa.Instruction) {
+			mu, ok := in.(*ssa.MapUpdate)
+			if !ok {
+				return
+			}
+			base, isH := fieldLoadOf(mu.Map, a.NodeT, a.FHandlers)
+			if !isH {
+				return
+			}
+			key, isC := strConst(mu.Key)
+			if !isC || (key != "OPTIONS" && key != key405) {
+				return
+			}
+			n++
+			dom := an.DominatedByEdge(in, func(b *ssa.BasicBlock, succ int) bool {
+				// the not-found edge of handlers[key]
+				other := 1 - succ
+				if len(b.Succs) == 2 && commaOkEdge(b, other, func(m, k ssa.Value) bool {
+					mb, isHm := fieldLoadOf(m, a.NodeT, a.FHandlers)
+					ks, isK := strConst(k)
+					return isHm && mb == base && isK && ks == key
+				}) {
+					return true
+				}
+				// the map is empty or nil
+				return edgeHas(b, succ, func(cond ssa.Value, truth bool) bool {
+					x, k, eq, ok := an.CondAtom(cond)
+					if !ok || eq != truth {
+						return false
+					}
+					if k.Value == nil {
+						mb, isHm := fieldLoadOf(x, a.NodeT, a.FHandlers)
+						return isHm && mb == base
+					}
+					if k.Value.Kind() == constant.Int && k.Int64() == 0 {
+						t := c.O.Of(x).String()
+						return t == "call<builtin:len>("+base+"."+a.FHandlers+")" || (strings.HasPrefix(t, "call<tree.(*node).") && strings.HasSuffix(t, ">("+base+")") && isSizeCall(c, x))
+					}
+					return false
+				})
+			})
+			c.R.Add(rule, c.fk(f), fmt.Sprintf("install:%s.%s[const%q]/only-when-absent", base, a.FHandlers, key), c.pos(in), dom, ifelse(dom, "built only when the node has no such entry yet", "the automatic entry is installed whether or not the node already has one: each further Handle on the pattern replaces the OPTIONS / 405 handler by one wrapped in the middlewares of that call (the property gives them those of the call that first registered the pattern) and invokes the middleware factories a second time for a handler that was already wrapped"))
+		})
+	}
+	if n == 0 {
+		c.R.Add(rule, "pkg:tree", "install:automatic-entries", "-", true, "no installation under a constant automatic key into an existing node's handler map (another form: not decided here)")
+	}
+}
+
+func isSizeCall(c *Ctx, v ssa.Value) bool {
+	call, ok := v.(*ssa.Call)
+	if !ok {
+		return false
+	}
+	g := an.StaticCallee(&call.Call)
+	return g != nil && isSizeFunc(c, an.Origin(g))
+}
+
+// ruleSortKeyIsFixedAtInsertion — C03.R17 / C14.R12: children are sorted when a node is inserted into (or
+// split inside) their parent's list, and never again. The order is therefore a function of the registration history
+// unless the sort key of a node only reads what is fixed when the node is placed: its segment. A key that reads the
+// node's own child list (priority() adds one for a childless node) changes when a route below the node is added or
+// removed while the parent's list is not re-sorted: which of two same-kind siblings is tried first then depends on
+// the order of unrelated Handle / Remove calls.
+func ruleSortKeyIsFixedAtInsertion(c *Ctx, rule string) {
+	a := c.A
+	c.R.Rule(c.R.Property+"."+rule, 1, "the sort key of a node reads only what is fixed when the node is placed among its siblings (its segment)")
+	g := priorityFunc(c)
+	if g == nil {
+		c.R.Add(rule, "pkg:tree", "sort-key/function", "-", true, "no sort key function found by its role in the comparator (another ordering: not decided here)")
+		return
+	}
+	reads := map[string]ssa.Instruction{}
+	for _, f := range builderCluster(c, g) {
+		if f != g && (f.Signature.Recv() == nil || !isPtrToNamed(f.Signature.Recv().Type(), a.NodeT)) {
+			continue
+		}
+		an.AllInstrs(f, func(in ssa.Instruction) {
+			fa, ok := in.(*ssa.FieldAddr)
+			if !ok || !isPtrToNamed(fa.X.Type(), a.NodeT) {
+				return
+			}
+			name := an.FieldName(fa.X.Type(), fa.Field)
+			if _, seen := reads[name]; !seen {
+				reads[name] = in
+			}
+		})
+	}
+	var names []string
+	for n := range reads {
+		names = append(names, n)
+	}
+	sort.Strings(names)
+	other := 0
+	for _, n := range names {
+		if n == a.FSegment {
+			continue
+		}
+		other++
+		c.R.Add(rule, c.fk(g), "sort-key/reads:"+n, c.pos(reads[n]), false, "the sort key reads the node's field "+n+", which changes after the node was placed among its siblings (a route below it is added or removed) while the parent's list is sorted only on insertion: the order of same-kind siblings, and so the route a request is dispatched to, depends on the history of unrelated registrations")
+	}
+	if other == 0 {
+		c.R.Add(rule, c.fk(g), "sort-key/reads-only:"+a.FSegment, c.P.Pos(g.Pos()), true, "the key is a function of the node's segment")
+	}
+}
+
+// ruleParameterNamesAreRemembered — C01.R20 / C10.R16 / C17.R12: a pattern with one capturing name twice
+// ({lang}/docs/{lang}) reports the second value for both places: the parameters no longer reproduce the request
+// path. The parser refuses such patterns by remembering the names it has seen. Every segment it builds is, on
+// every path from its construction to the next round of the loop, either known not to capture (a literal, a name
+// that is ignored) or remembered: its name becomes a key of a map, or the segment (its name) is carried into the
+// next round in a variable. A condition in front of the bookkeeping — only for patterns of three pieces and more —
+// lets the names of some patterns go unrecorded, and the duplicate is accepted.
+func ruleParameterNamesAreRemembered(c *Ctx, rule string) {
+	c.R.Rule(c.R.Property+"."+rule, 1, "the parser remembers the name of every capturing parameter it builds (the duplicate-name test sees them all)")
+	parser := c.P.Func("syntax.(*Interceptors).Split")
+	if parser == nil {
+		c.R.Add(rule, "pkg:syntax", "parser/function", "-", true, "no Interceptors.Split (the parser is elsewhere: not decided here)")
+		return
+	}
+	n := 0
+	for _, l := range rangeLoops(parser) {
+		l := l
+		an.AllInstrs(parser, func(in ssa.Instruction) {
+			ex, ok := in.(*ssa.Extract)
+			if !ok || ex.Index != 0 {
+				return
+			}
+			call, ok := ex.Tuple.(*ssa.Call)
+			if !ok {
+				return
+			}
+			g := an.StaticCallee(&call.Call)
+			if g == nil || !strings.HasSuffix(an.FuncKey(g), ".NewSegment") {
+				return
+			}
+			// inside this loop
+			inLoop := false
+			for _, e := range l.elems {
+				if e.Block().Dominates(in.Block()) {
+					inLoop = true
+				}
+			}
+			if !inLoop {
+				return
+			}
+			n++
+			segAP := an.AP(ex)
+			isSegOrName := func(v ssa.Value) bool {
+				return v == ssa.Value(ex) || an.AP(v) == segAP+".Name"
+			}
+			// the memory may be the list of segments built so far, when the duplicate test searches that list:
+			// hasParam(segs, seg.Name) — then appending the segment to it is the recording
+			consulted := map[ssa.Value]bool{}
+			an.AllInstrs(parser, func(x ssa.Instruction) {
+				hc, ok := x.(*ssa.Call)
+				if !ok || len(hc.Call.Args) != 2 || !isSegOrName(hc.Call.Args[1]) {
+					return
+				}
+				if hg := an.StaticCallee(&hc.Call); hg == nil || !an.IsLibrary(hg) {
+					return
+				}
+				if bt, isB := hc.Type().Underlying().(*types.Basic); !isB || bt.Kind() != types.Bool {
+					return
+				}
+				consulted[hc.Call.Args[0]] = true
+			})
+			appendsSeg := func(t ssa.Instruction) bool {
+				ac, ok := builtinCall(t, "append")
+				if !ok || len(ac.Args) != 2 || !consulted[ac.Args[0]] {
+					return false
+				}
+				sl, ok := ac.Args[1].(*ssa.Slice)
+				if !ok {
+					return false
+				}
+				al, ok := sl.X.(*ssa.Alloc)
+				if !ok {
+					return false
+				}
+				for _, r := range *al.Referrers() {
+					ia, ok := r.(*ssa.IndexAddr)
+					if !ok {
+						continue
+					}
+					for _, r2 := range *ia.Referrers() {
+						if st, ok := r2.(*ssa.Store); ok && st.Val == ssa.Value(ex) {
+							return true
+						}
+					}
+				}
+				return false
+			}
+			path := (&an.Query{
+				TargetEdge: loopBackEdge(l),
+				Block: func(t ssa.Instruction) bool {
+					if appendsSeg(t) {
+						return true
+					}
+					mu, ok := t.(*ssa.MapUpdate)
+					return ok && isSegOrName(mu.Key)
+				},
+				BlockEdge: func(b *ssa.BasicBlock, succ int) bool {
+					// known not to capture
+					if len(b.Instrs) > 0 {
+						if br, ok := b.Instrs[len(b.Instrs)-1].(*ssa.If); ok {
+							if no, _ := captureTest(c, br.Cond, segAP); no == succ {
+								return true
+							}
+						}
+					}
+					// carried on in a variable: a phi of the successor takes the segment (its name) from this edge
+					nb := b.Succs[succ]
+					for pi, p := range nb.Preds {
+						if p != b {
+							continue
+						}
+						for _, x := range nb.Instrs {
+							phi, ok := x.(*ssa.Phi)
+							if !ok {
+								break
+							}
+							if isSegOrName(phi.Edges[pi]) {
+								return true
+							}
+						}
+					}
+					return false
+				},
+			}).Search(an.After(in))
+			o := c.R.Add(rule, c.fk(parser), "segment:NewSegment/name-remembered-before-the-next-piece", c.pos(in), path == nil, ifelse(path == nil, "every capturing segment's name is recorded (map key or carried variable) before the next piece is parsed", "a capturing segment can be parsed without its name being recorded: a later segment of the same name is not recognised as a duplicate, the pattern is accepted and the second capture overwrites the first — the reported parameters no longer reproduce the request path"))
+			if path != nil {
+				o.Path = c.P.PathString(path)
+			}
+		})
+	}
+	if n == 0 {
+		c.R.Add(rule, c.fk(parser), "segment:NewSegment/in-a-loop", c.P.Pos(parser.Pos()), true, "the parser does not build its segments in a range loop (another form: not decided here)")
+	}
+}
+
+// ruleSameTypedSlotsAreNotCrossed — C08.R12 / C11.R16: the builders of the automatic OPTIONS and 405 handlers travel
+// from the user's constructor call through NewGroup / Group.New / NewRouter into tree.New as two parameters of one
+// type, side by side. Wherever the module hands two values of one type to two slots of one type — parameters of a
+// module function, or fields of one struct — and each value is *named* (a parameter or a field) like the other's
+// slot, the two are crossed: OPTIONS is answered by the 405 builder's handler (and, being a found method, gets the
+// CORS headers of a served request). The check is exact in what it reports: both names must match the opposite slot.
+func ruleSameTypedSlotsAreNotCrossed(c *Ctx, rule string) {
+	c.R.Rule(c.R.Property+"."+rule, 0, "two values of one type are not handed to each other's slots (builder for OPTIONS / builder for 405)")
+	nameOf := func(v ssa.Value) string {
+		switch x := v.(type) {
+		case *ssa.Parameter:
+			return x.Name()
+		case *ssa.UnOp:
+			if fa, ok := x.X.(*ssa.FieldAddr); ok && x.Op == token.MUL {
+				return an.FieldName(fa.X.Type(), fa.Field)
+			}
+		}
+		return ""
+	}
+	n := 0
+	for _, f := range c.libFuncs() {
+		f := f
+		// calls
+		an.AllInstrs(f, func(in ssa.Instruction) {
+			call := an.CallOf(in)
+			if call == nil || call.IsInvoke() {
+				return
+			}
+			g := an.StaticCallee(call)
+			if g == nil || !an.IsLibrary(g) {
+				return
+			}
+			g = an.Origin(g)
+			args := call.Args
+			if len(args) != len(g.Params) {
+				return
+			}
+			for i := 0; i < len(args); i++ {
+				for j := i + 1; j < len(args); j++ {
+					if !types.Identical(g.Params[i].Type(), g.Params[j].Type()) {
+						continue
+					}
+					ni, nj := nameOf(args[i]), nameOf(args[j])
+					if ni == "" || nj == "" || ni == nj {
+						continue
+					}
+					n++
+					if strings.EqualFold(ni, g.Params[j].Name()) && strings.EqualFold(nj, g.Params[i].Name()) {
+						c.R.Add(rule, c.fk(f), fmt.Sprintf("call:%s/args:%s,%s", an.FuncKey(g), ni, nj), c.pos(in), false, fmt.Sprintf("%s is passed as %s and %s as %s: the two same-typed values are crossed — the automatic OPTIONS handler is built by the 405 builder and the other way round (OPTIONS answers 405 with the CORS headers of a served request; unsupported methods answer 200 with Allow)", ni, g.Params[i].Name(), nj, g.Params[j].Name()))
+					}
+				}
+			}
+		})
+		// stores into two fields of one object
+		type fst struct {
+			in    ssa.Instruction
+			base  string
+			field string
+			t     types.Type
+			val   string
+		}
+		var sts []fst
+		an.AllInstrs(f, func(in ssa.Instruction) {
+			st, ok := in.(*ssa.Store)
+			if !ok {
+				return
+			}
+			fa, ok := st.Addr.(*ssa.FieldAddr)
+			if !ok {
+				return
+			}
+			sts = append(sts, fst{in, an.AP(fa.X), an.FieldName(fa.X.Type(), fa.Field), st.Val.Type(), nameOf(st.Val)})
+		})
+		for i := 0; i < len(sts); i++ {
+			for j := i + 1; j < len(sts); j++ {
+				a, b := sts[i], sts[j]
+				if a.base != b.base || a.val == "" || b.val == "" || a.field == b.field || !types.Identical(a.t, b.t) {
+					continue
+				}
+				if strings.EqualFold(a.val, b.field) && strings.EqualFold(b.val, a.field) {
+					c.R.Add(rule, c.fk(f), fmt.Sprintf("store:%s.%s=%s,%s.%s=%s", a.base, a.field, a.val, b.base, b.field, b.val), c.pos(a.in), false, fmt.Sprintf("the field %s receives %s and the field %s receives %s: the two same-typed values are crossed", a.field, a.val, b.field, b.val))
+				}
+			}
+		}
+	}
+	c.R.Add(rule, "pkg:*", "same-typed-slots/pairs-examined", "-", true, fmt.Sprintf("%d pairs of named same-typed arguments examined, none crossed beyond those listed", n))
+}
+
+// ruleZeroContextIsUsable — C05.R18 / C20.R7: types.Context is an exported struct and the matchers (Hosts.Match, the
+// version matchers, the combinators) take the caller's context: a context that did not come from NewContext — the
+// zero value — has a nil parameter map. Set "behaves as on a map" for it only because it allocates the map first;
+// a store into the field's map that can be reached with the map still nil is a write to a nil map, a runtime panic
+// in Hosts.Match / pathVersion.Match for a context the caller declared with `var ctx types.Context`.
+func ruleZeroContextIsUsable(c *Ctx, rule string) {
+	a := c.A
+	c.R.Rule(c.R.Property+"."+rule, 1, "no store into the parameter map of a Context is reachable while the map is nil")
+	n := 0
+	for _, f := range c.libFuncs() {
+		f := f
+		if f.Signature.Recv() == nil || !isPtrToNamed(f.Signature.Recv().Type(), a.ContextT) {
+			continue
+		}
+		an.AllInstrs(f, func(in ssa.Instruction) {
+			mu, ok := in.(*ssa.MapUpdate)
+			if !ok {
+				return
+			}
+			base, field, isField := fieldLoadAny(mu.Map)
+			if !isField || base != "recv" {
+				return
+			}
+			n++
+			path := (&an.Query{
+				Assume: func(cond ssa.Value) (bool, bool) {
+					x, k, eq, ok := an.CondAtom(cond)
+					if !ok {
+						return false, false
+					}
+					if k.Value == nil && an.AP(x) == "recv."+field {
+						return eq, true // the map is nil
+					}
+					if k.Value != nil && k.Value.Kind() == constant.Int && k.Int64() == 0 && c.O.Of(x).String() == "call<builtin:len>(recv."+field+")" {
+						return eq, true // and therefore empty
+					}
+					return false, false
+				},
+				Target: func(t ssa.Instruction) bool { return t == in },
+				Block: func(t ssa.Instruction) bool {
+					b2, f2, _, ok := fieldStoreAny(t)
+					return ok && b2 == "recv" && f2 == field
+				},
+			}).Search(an.Entry(f))
+			o := c.R.Add(rule, c.fk(f), "store:recv."+field+"[key]/map-allocated-first", c.pos(in), path == nil, ifelse(path == nil, "the store is reached only with an allocated map", "the store into recv."+field+" is reachable while the map is nil: a Context that did not come from NewContext (the zero value, which the exported type allows and the matchers accept) panics with \"assignment to entry in nil map\" as soon as a matcher records a parameter"))
+			if path != nil {
+				o.Path = c.P.PathString(path)
+			}
+		})
+	}
+	if n == 0 {
+		c.R.Add(rule, "pkg:types", "store:params/exists", "-", true, "no method of Context stores into a map field")
+	}
+}
+
+// fieldLoadAny: v = *(&base.field)
+func fieldLoadAny(v ssa.Value) (base, field string, ok bool) {
+	u, isU := v.(*ssa.UnOp)
+	if !isU || u.Op != token.MUL {
+		return "", "", false
+	}
+	fa, isFA := u.X.(*ssa.FieldAddr)
+	if !isFA {
+		return "", "", false
+	}
+	return an.AP(fa.X), an.FieldName(fa.X.Type(), fa.Field), true
 }
